@@ -314,6 +314,7 @@ type oplType struct{ NS, Rel string }
 type oplRelDecl struct {
 	Name  string
 	Types []oplType
+	Form  int // 0: random; 1: Array<…>; 2: T[] (one type) / (…)[]; 3: (…)[]
 }
 
 type oplPermDecl struct {
@@ -422,6 +423,9 @@ func (s *oplSpell) relDecl(d oplRelDecl, fl *oplFlags, allowArrayComma bool) str
 	}
 	union := strings.Join(ts, s.opt()+"|"+s.opt())
 	form := s.r.Intn(3)
+	if d.Form != 0 {
+		form = d.Form - 1
+	}
 	var typ string
 	switch {
 	case form == 0:
@@ -509,7 +513,7 @@ func (s *oplSpell) renderDoc(nss []*oplNSDecl, fl *oplFlags, allowArrayComma boo
 
 var oplBadUTF8 = []string{"\xff", "\xc3", "\xe2\x82", "\xf0\x9f\x98", "\xed\xa0\x80", "\xc0\x80", "\xf4\x90\x80\x80", "\x80", "\xbf\xbf", "\xfe\xff", "\xe0\x80\x80", "\xf8\x88\x80\x80\x80"}
 var oplGoodUTF8 = []string{"é", "€", "😀", " ", "ü", " ", "�", "\n", "\r\n", "\n\n"}
-var oplFragments = []string{"/*", "*/", "//", "\"", "'", "(", ")", "!", "!(", "((((((((((((", "))", "{", "}", "[", "]", "<", ">", "=>", "=", "||", "&&", "|", "&", ",", ";", ":", ".", "#", "\x00", "class", "this", "ctx", "related", "permits", "Array", "SubjectSet", "implements", "Namespace", "traverse", "includes", "subject", "0", "9x", "$", "\\", "`"}
+var oplFragments = []string{"(((((((((((((((((((((((((", "}}}}}}}}}}}}}}}}}}}}}", "([{<>}])([{<>}])([{<>}])", ">>>>>>>>>>>>>>>>>>>>>>)[]", "/*", "*/", "//", "\"", "'", "(", ")", "!", "!(", "((((((((((((", "))", "{", "}", "[", "]", "<", ">", "=>", "=", "||", "&&", "|", "&", ",", ";", ":", ".", "#", "\x00", "class", "this", "ctx", "related", "permits", "Array", "SubjectSet", "implements", "Namespace", "traverse", "includes", "subject", "0", "9x", "$", "\\", "`"}
 
 func oplMutate(r *rand.Rand, doc string) (string, string) {
 	b := []byte(doc)
@@ -616,6 +620,49 @@ func oplHugeDoc(r *rand.Rand, n int) string {
 		return "class U implements Namespace { related: { base: U[] } permits = { can: (ctx) => this.related." + long + ".includes(ctx.subject) } }"
 	default:
 		return "class U implements Namespace { related: { '" + long
+	}
+}
+
+// oplBracketChars: the one-rune tokens and the characters of the multi-rune ones.
+const oplBracketChars = "(){}[]<>"
+const oplOperatorChars = "!|&=.,:;"
+
+// oplBracketRun: 21-60 adjacent bracket / operator characters without white space
+// (identical, mixed brackets, or brackets and operators), alone or inside a
+// document. More than 20 items from one state function would fill the lexer's
+// item channel.
+func oplBracketRun(r *rand.Rand) string {
+	n := 21 + r.Intn(40)
+	var sb strings.Builder
+	switch r.Intn(4) {
+	case 0:
+		c := oplBracketChars[r.Intn(len(oplBracketChars))]
+		sb.WriteString(strings.Repeat(string(c), n))
+	case 1:
+		for i := 0; i < n; i++ {
+			sb.WriteByte(oplBracketChars[r.Intn(len(oplBracketChars))])
+		}
+	case 2:
+		c := oplOperatorChars[r.Intn(len(oplOperatorChars))]
+		sb.WriteString(strings.Repeat(string(c), n))
+	default:
+		all := oplBracketChars + oplOperatorChars
+		for i := 0; i < n; i++ {
+			sb.WriteByte(all[r.Intn(len(all))])
+		}
+	}
+	run := sb.String()
+	switch r.Intn(5) {
+	case 0:
+		return run
+	case 1:
+		return "class U implements Namespace { related: { base: U[] } permits = { can: (ctx) => " + run + "this.related.base.includes(ctx.subject)" + " } }"
+	case 2:
+		return "class U implements Namespace " + run
+	case 3:
+		return "class U implements Namespace { related: { base: " + run + " } }"
+	default:
+		return run + " class U implements Namespace {}" + run
 	}
 }
 
